@@ -8,8 +8,8 @@ FEC) with ghost history, and the facts about the chunking loop of `WriteBuffers`
 * the queued payload bytes grow by exactly the bytes of the slices (`sendAll_bytes`);
 * every session operation is a (possibly empty) sequence of core operations (`Lemmas/C01Ops.lean`).
 
-Facts about `Kcp.send` are proved from the mirror `send_eq` and do not depend on what the refusal
-branch (−2) does to the queue: with at most `mss` bytes that branch is unreachable.
+Facts about `Kcp.send` are proved from the mirror `send_eq`; with at most `mss` bytes the refusal
+branch (−2) is unreachable.
 -/
 import KcpVerif.Model.Sess
 import KcpVerif.Lemmas.C01Msg
@@ -43,6 +43,8 @@ theorem send_chunk (k : Kcp) (b : Bytes) (hm : 0 < k.mss.toNat) (hle : b.length 
     subst this
     exact ⟨by simp, (by show (-1 : Int) ≠ -2; decide), by simp⟩
   · rw [if_neg c0] at hse
+    have c3 : ¬ sendCount k b > 255 := by omega
+    rw [if_neg c3] at hse
     by_cases c1 : sendPanic1 k b = true
     · rw [if_pos c1] at hse; rw [hse] at hp; cases hp
     · rw [if_neg c1] at hse
@@ -62,8 +64,6 @@ theorem send_chunk (k : Kcp) (b : Bytes) (hm : 0 < k.mss.toNat) (hle : b.length 
         · show frgs (sendQ1 k b) = frgs k.snd_queue ++ List.replicate ((sendQ1 k b).length - _) 0
           rw [sendQ1_frgs, hq1]; simp
       · rw [if_neg c2] at hse
-        have c3 : ¬ sendCount k b > 255 := by omega
-        rw [if_neg c3] at hse
         by_cases c4 : min (sendRest k b).length k.mss.toNat > mtuLimit
         · rw [if_pos c4] at hse; rw [hse] at hp; cases hp
         · rw [if_neg c4] at hse
